@@ -717,7 +717,7 @@ impl<'c, 's> Run<'c, 's> {
             && b[6] == b[3] >> 1
             && b[7] & 0xF0 == 0xC0
             && b[9] & 0x60 == 0;
-        if p.is_ok() && rlen.is_none() && plain_request {
+        if ((p.is_ok() && rlen.is_none()) || (p.is_panic() && rcap >= 64)) && plain_request {
             let sets = self.nodes[ni].cfg.vplain.len();
             let missing: Option<(Prop, &'static str)> = match pr.cmd {
                 0x01 if n == 14 && (b[11] == 0 || b[11] == 1) && (0x01..=0xFE).contains(&b[12]) => Some((Prop::C13, "C13/assign-answer/missing")),
@@ -730,7 +730,8 @@ impl<'c, 's> Run<'c, 's> {
             };
             if let Some((prop, sig)) = missing {
                 self.eval(prop, "request-must-be-answered");
-                self.viol(prop, sig.into(), format!("node{}: accepted request {} was not answered (process_packet returned no response)", ni, hex(&b)));
+                let how = if p.is_panic() { "process_packet panicked" } else { "process_packet returned no response" };
+                self.viol(prop, sig.into(), format!("node{}: in-domain request {} was not answered ({})", ni, hex(&b), how));
             }
         }
         self.check_state(ni, cause);
@@ -770,7 +771,10 @@ impl<'c, 's> Run<'c, 's> {
                 let (cause_l, clean, req) = match fi {
                     Some(f) => {
                         let fr = &self.frames[f];
-                        (Some(fr.logical), fr.intact() && fr.src.is_some() && fr.req.is_some(), fr.req.clone())
+                        // "clean" = an unaltered request of a real node inside C12's quantifier (SMBus source
+                        // address and source EID name the same requester — not so for bridged requests)
+                        let in_c12 = b.len() >= 12 && b[3] & 1 == 1 && b[6] == b[3] >> 1;
+                        (Some(fr.logical), fr.intact() && fr.src.is_some() && fr.req.is_some() && in_c12, fr.req.clone())
                     }
                     None => (None, false, None),
                 };
